@@ -189,7 +189,7 @@ def parse_results(out, harnesses):
 
 
 def concrete_values(scratch, harness, harness_timeout=900):
-    """Re-run one failed harness with concrete playback; return list of byte lists (in order of any() calls)."""
+    """Re-run one failed harness with concrete playback; return [{kind, description, values}] for the failed checks (covers dropped)."""
     cmd = ['cargo', 'kani', '-Z', 'unstable-options', '-Z', 'stubbing', '--harness-timeout', '%ds' % harness_timeout, '--exact', '--harness', harness,
            '-Z', 'concrete-playback', '--concrete-playback=print', '--output-format', 'terse']
     p = subprocess.Popen(cmd, cwd=scratch, env=_env(), stdout=subprocess.PIPE, stderr=subprocess.STDOUT, text=True)
@@ -197,13 +197,21 @@ def concrete_values(scratch, harness, harness_timeout=900):
     wd.start()
     out, _ = p.communicate()
     wd.stop = True
-    m = re.search(r'let concrete_vals: Vec<Vec<u8>> = vec!\[(.*?)\n\s*\];', out, re.S)
-    if not m:
+    # one generated test per failed check AND per satisfied cover: keep only the failed checks
+    cands = []
+    for bm in re.finditer(r"/// Check for `(\w+)`: \"(.*?)\"\s*\n(.*?)kani::concrete_playback_run", out, re.S):
+        kind, desc, body = bm.group(1), bm.group(2).strip('"'), bm.group(3)
+        m = re.search(r'let concrete_vals: Vec<Vec<u8>> = vec!\[(.*?)\n\s*\];', body, re.S)
+        if not m:
+            continue
+        vals = []
+        for vm in re.finditer(r'vec!\[([0-9,\s]*)\]', m.group(1)):
+            vals.append([int(x) for x in vm.group(1).replace(' ', '').split(',') if x != ''])
+        cands.append({'kind': kind, 'description': desc, 'values': vals})
+    failing = [c for c in cands if c['kind'] != 'cover']
+    if not failing:
         return None, out
-    vals = []
-    for vm in re.finditer(r'vec!\[([0-9,\s]*)\]', m.group(1)):
-        vals.append([int(x) for x in vm.group(1).replace(' ', '').split(',') if x != ''])
-    return vals, out
+    return failing, out
 
 
 def native_replay(scratch, harness, vals, timeout=600):
@@ -222,6 +230,8 @@ def native_replay(scratch, harness, vals, timeout=600):
     except subprocess.TimeoutExpired:
         return None, 'native replay timeout'
     out = p.stdout + p.stderr
+    if 'could not compile' in out:
+        return None, 'NATIVE REPLAY BUILD FAILED: ' + out[-1500:]
     if 'VERIF_ASSUME_FAILED' in out:
         return None, out
     m = re.search(r'test result: (\w+)\. (\d+) passed; (\d+) failed', out)
